@@ -1,27 +1,26 @@
 #!/bin/bash
-# usage: ./seedtest.sh <property> <mutdir> [tier]   (dev-time helper)
-# 1. confirms in a scratch worktree that the patch compiles, passes the suite (except TestDecimalFormat) and that the demo fails with / passes without it;
-# 2. applies the patch to /repo, runs the property's check, reverts; prints DETECTED / MISSED.
-P=$1; M=$2; TIER=${3:-quick}
+# usage: ./seedtest.sh <property> <mutdir> [tier]   (dev-time helper; never touches /repo)
+# 1. in a scratch worktree: patch applies, (optionally) suite passes, demo fails with / passes without the patch;
+# 2. runs the property's check against the patched scratch worktree (VERIF_REPO); prints DETECTED / MISSED.
+P=$1; M=$(readlink -f $2); TIER=${3:-quick}
+cd "$(dirname "$0")"
 export GOFLAGS=-mod=mod GOPROXY=off GOSUMDB=off GOTOOLCHAIN=local
 WT=/tmp/seedwt.$$
 git -C /repo worktree add -q --detach $WT HEAD || exit 2
-trap 'git -C /repo worktree remove --force $WT; git -C /repo checkout -q -- . ' EXIT
-cd $WT
-if ! git apply $M/patch.diff; then echo "RESULT $P $M: PATCH-DOES-NOT-APPLY"; exit 3; fi
+trap 'git -C /repo worktree remove --force $WT; rm -rf .work/alt-$(echo $WT | md5sum | cut -c1-10)' EXIT
+if ! git -C $WT apply $M/patch.diff; then echo "RESULT $P $M: PATCH-DOES-NOT-APPLY"; exit 3; fi
 if [ -z "$SKIP_SUITE" ]; then
-  fails=$(go test -vet=off -count=1 . 2>&1 | grep -E "^--- FAIL" | grep -v TestDecimalFormat | head -3)
+  fails=$(cd $WT && go test -vet=off -count=1 . 2>&1 | grep -E "^--- FAIL" | head -3)
   if [ -n "$fails" ]; then echo "RESULT $P $M: SUITE-FAILS $fails"; exit 3; fi
 fi
-cp $M/demo_test.go ./zz_demo_test.go
-if go test -vet=off -count=1 -run "$(grep -oE 'func (Test[A-Za-z0-9_]+)' zz_demo_test.go | awk '{print $2}' | paste -sd'|')" . >/tmp/seed.$$.log 2>&1; then echo "RESULT $P $M: DEMO-PASSES-WITH-PATCH"; tail -5 /tmp/seed.$$.log; exit 3; fi
-git checkout -q -- . 
-if ! go test -vet=off -count=1 -run "$(grep -oE 'func (Test[A-Za-z0-9_]+)' zz_demo_test.go | awk '{print $2}' | paste -sd'|')" . >/tmp/seed.$$.log 2>&1; then echo "RESULT $P $M: DEMO-FAILS-WITHOUT-PATCH"; tail -5 /tmp/seed.$$.log; exit 3; fi
-rm -f zz_demo_test.go /tmp/seed.$$.log
-cd /verif
-git -C /repo apply $M/patch.diff || exit 3
-out=$(./check.sh $P $TIER 2>&1); code=$?
-git -C /repo checkout -q -- .
-echo "$out" | grep -E "^VIOLATION|SELF-CHECK|BUILD-FAILED" | head -3
+cp $M/demo_test.go $WT/zz_demo_test.go
+tests="$(grep -oE 'func (Test[A-Za-z0-9_]+)' $WT/zz_demo_test.go | awk '{print $2}' | paste -sd'|')"
+if (cd $WT && timeout 600 go test -vet=off -count=1 -run "$tests" . >/tmp/seed.$$.log 2>&1); then echo "RESULT $P $M: DEMO-PASSES-WITH-PATCH"; tail -5 /tmp/seed.$$.log; exit 3; fi
+git -C $WT apply -R $M/patch.diff
+if ! (cd $WT && timeout 600 go test -vet=off -count=1 -run "$tests" . >/tmp/seed.$$.log 2>&1); then echo "RESULT $P $M: DEMO-FAILS-WITHOUT-PATCH"; tail -5 /tmp/seed.$$.log; exit 3; fi
+rm -f $WT/zz_demo_test.go /tmp/seed.$$.log
+git -C $WT apply $M/patch.diff
+out=$(VERIF_REPO=$WT timeout 3000 ./check.sh $P $TIER 2>&1); code=$?
+echo "$out" | grep -aE "^VIOLATION|SELF-CHECK|BUILD-FAILED" | head -3
 echo "$out" | tail -1
-if [ $code -eq 1 ] && echo "$out" | grep -q "^VIOLATION property=$P"; then echo "RESULT $P $M: DETECTED"; else echo "RESULT $P $M: MISSED (exit $code)"; fi
+if [ $code -eq 1 ] && echo "$out" | grep -aq "^VIOLATION property=$P"; then echo "RESULT $P $M: DETECTED"; else echo "RESULT $P $M: MISSED (exit $code)"; fi
